@@ -1964,11 +1964,29 @@ func (g *Gen) runKeys(nops int) {
 		default:
 			g.do("end")
 			g.maybeExportImport()
-			g.height += int64(1 + r.Intn(3))
-			g.time += 5
+			quiet := r.Intn(12) == 0
+			if quiet {
+				// a long quiet stretch: tens of thousands of hub blocks without any report from the external chains (longer
+				// than the target batch timeout); whatever is still stored is still offered for signing
+				k := int64(20000 + r.Intn(30000))
+				g.height += k
+				g.time += 5 * k
+				g.stats["keys:long-quiet-stretch"]++
+			} else {
+				g.height += int64(1 + r.Intn(3))
+				g.time += 5
+			}
 			g.do(fmt.Sprintf("block %d %d", g.height, g.time))
 			g.do("begin")
 			dumps()
+			if quiet {
+				for _, c := range []string{"ethereum", "bsc", "minter"} {
+					for _, v := range g.vals {
+						g.do(fmt.Sprintf("q_unsigned_batches %s %s", c, v.addr))
+						g.do(fmt.Sprintf("q_unsigned_sets %s %s", c, v.addr))
+					}
+				}
+			}
 		}
 	}
 	g.do("end")
